@@ -100,6 +100,21 @@ def batch_scenarios(tier, seed, twin):
             meta[sid] = dict(size=16, p=p, twin=sid + "-twin")
             scs.append(dict(id=sid + "-twin", world=dict(w_, unlocker_passphrases=["not-this-one-%d-twin" % fi, "pass"]), conc=conc, gomaxprocs=p, prior=[],
                             ops=[dict(id="e%d" % j, kind="att", ents=[e]) for j, e in enumerate(ents)]))
+    # ACCOUNT NAMES WITH PATH SEPARATORS: wallets hold accounts such as "pool/a0" and "x/y/a1" next to "a0" and "a1"; every request,
+    # by name or by key, is answered under the key of the account it ADDRESSES (a lookup that loses part of the name signs with a neighbour's)
+    slash_w = dict(wallets=[dict(name="W1", type="nd", accounts=[dict(name="a0", key=0), dict(name="a1", key=1), dict(name="pool/a0", key=2), dict(name="pool/a1", key=3),
+                                                              dict(name="x/y/a0", key=4), dict(name="x/y/a1", key=5), dict(name="a0/pool", key=6), dict(name="pool", key=7)])])
+    for si_, p in enumerate((1, 4, 16)):
+        ops_ = []
+        for j_ in range(4):
+            ks_ = [(j_ + x_) % 8 for x_ in range(8)]
+            ops_.append(dict(id="s%da" % j_, kind="atts", ents=[dict(k=key, s=j_, t=j_ + 1, root="N%d" % j_, by=("name", "key")[(j_ + key) % 2]) for key in ks_]))
+            ops_.append(dict(id="s%dm" % j_, kind="multi", dom="randao", ents=[dict(k=key, root="M%d" % j_, by=("key", "name")[(j_ + key) % 2]) for key in ks_]))
+            for key in ks_[:4]:
+                ops_.append(dict(id="s%dg%d" % (j_, key), kind="gen", dom="randao", by=("name", "key")[j_ % 2], ents=[dict(k=key, root="G%d" % j_)]))
+        sid = "B-slashnames-%d" % si_
+        scs.append(dict(id=sid, world=slash_w, conc=conc, gomaxprocs=p, prior=[], ops=ops_))
+        meta[sid] = dict(size=8, p=p, twin=None)
     # sustained load on the generic batch endpoint: many 64-entry batches at full parallelism (a worker that leaks state into
     # its neighbours - a shared variable, a reused buffer - shows up only under real contention, a fraction of a percent per entry)
     nsoak = 150 if tier == "quick" else 1500
